@@ -237,7 +237,7 @@ class Infeasible(Exception):
 
 class Num:
     """Path-local numeric knowledge: symbol refinements + relational facts."""
-    __slots__ = ('lo', 'hi', 'cong', 'facts', 'neq', 'divs', 'nez')
+    __slots__ = ('lo', 'hi', 'cong', 'facts', 'neq', 'divs', 'nez', 'congf', 'remb', 'parent')
 
     def __init__(self):
         self.lo = {}
@@ -247,6 +247,9 @@ class Num:
         self.neq = {}      # sym -> frozenset of excluded values
         self.divs = set()  # Div symbols created on this path
         self.nez = []      # forms known to be != 0
+        self.congf = []    # (form A without constant, m, r): A == r (mod m)
+        self.remb = {}     # Div symbol q = Div(g, c) -> (lo, hi) bounds of its remainder g - c*q on this path
+        self.parent = {}   # Div symbol q2 whose dividend is the remainder of q (plus a constant k) -> (q, k)
 
     def copy(self):
         n = Num()
@@ -257,6 +260,9 @@ class Num:
         n.neq = dict(self.neq)
         n.divs = set(self.divs)
         n.nez = list(self.nez)
+        n.congf = list(self.congf)
+        n.remb = dict(self.remb)
+        n.parent = dict(self.parent)
         return n
 
     # ---- per-symbol bounds
@@ -288,15 +294,30 @@ class Num:
                 hi += k * a if a > -INF else INF * 4
         return (max(lo, -INF), min(hi, INF))
 
-    def rem_range(self, f: Form, c: int, depth=0, fb=1):
-        """range of Rem(f, c) = f - c*Div(f, c) for c > 0 from the sign of f"""
-        flo, fhi = self.rng(f, depth + 1, fb)
+    def sign_rem(self, g: Form, c: int, depth=0):
+        """range of Rem(g, c) for c > 0 from the sign (and smallness) of g"""
+        flo, fhi = self.rng(g, depth + 1, 1)
         lo = -(c - 1) if flo < 0 else 0
         hi = (c - 1) if fhi > 0 else 0
-        # small dividend: |f| < c  => rem = f
         if flo > -c and fhi < c:
             lo, hi = max(lo, flo), min(hi, fhi)
         return lo, hi
+
+    def rem_bounds(self, q, depth=0):
+        """stored bounds of the remainder of Div symbol q (initialised from the sign of the dividend)"""
+        b = self.remb.get(q)
+        if b is None:
+            g, c = SYMTAB.syms[q].data
+            b = self.sign_rem(g, c, depth)
+            if q in self.divs:
+                self.remb[q] = b
+        return b
+
+    def rem_range(self, f: Form, c: int, depth=0, fb=1):
+        q = SYMTAB.cons.get(('div', f.key(), c))
+        if q is not None and q in self.divs:
+            return self.rem_bounds(q, depth)
+        return self.sign_rem(f, c, depth)
 
     def rng(self, f: Form, depth=0, fb=1):
         """interval of f: naive evaluation, improved by folding  t*(g - c*Div(g,c))  into
@@ -304,7 +325,7 @@ class Num:
         lo, hi = self.naive(f)
         if not f.terms:
             return lo, hi
-        if depth < 4:
+        if depth < 6:
             for s, k in f.terms:
                 info = SYMTAB.syms[s]
                 if info.kind == 'div':
@@ -312,14 +333,14 @@ class Num:
                     if (-k) % c == 0:
                         t = (-k) // c
                         rest = f.sub(g.sub(Form.sym(s, c)).scale(t))
-                        rlo, rhi = self.rem_range_facts(g, c, s, depth, fb)
+                        rlo, rhi = self.rem_bounds(s, depth + 1)
                         l2, h2 = self.rng(rest, depth + 1, fb)
                         if t > 0:
                             l2, h2 = l2 + t * rlo, h2 + t * rhi
                         else:
                             l2, h2 = l2 + t * rhi, h2 + t * rlo
                         lo, hi = max(lo, l2), min(hi, h2)
-        if fb > 0 and depth < 5 and self.facts:
+        if fb > 0 and depth < 6 and self.facts:
             nf = None
             for F in self.facts:
                 if not F.terms:
@@ -356,28 +377,29 @@ class Num:
                 out.add(fk // k)
         return sorted(out)[:3]
 
-    def rem_range_facts(self, g: Form, c: int, q: int, depth=0, fb=1):
-        lo, hi = self.rem_range(g, c, depth, fb)
-        if self.facts:
-            r = g.sub(Form.sym(q, c))
-            rt = r.terms
-            n = len(rt)
-            nrt = None
-            for F in self.facts:
-                ft = F.terms
-                if len(ft) != n or ft[0][0] != rt[0][0]:
-                    continue
-                if ft == rt:               # r - r.c + F.c <= 0
-                    hi = min(hi, r.c - F.c)
-                else:
-                    if nrt is None:
-                        nrt = tuple((s, -k) for s, k in rt)
-                    if ft == nrt:          # -(r - r.c) + F.c <= 0
-                        lo = max(lo, F.c + r.c)
-        return lo, hi
-
     # ---- congruence of a form modulo m: returns residue or None
-    def residue(self, f: Form, m: int):
+    def residue(self, f: Form, m: int, depth=0):
+        r = self._residue(f, m)
+        if r is not None or depth > 1 or not self.congf:
+            return r
+        for (A, m2, r2) in self.congf:
+            if m2 % m != 0:
+                continue
+            for t in (1, -1):
+                ok = True
+                for s, k in A.terms:
+                    if (f.coeff(s) - t * k) % m != 0:
+                        ok = False
+                        break
+                if not ok:
+                    continue
+                rest = f.sub(A.scale(t))
+                rr = self.residue(rest, m, depth + 1)
+                if rr is not None:
+                    return (rr + t * r2) % m
+        return None
+
+    def _residue(self, f: Form, m: int):
         r = f.c % m
         for s, k in f.terms:
             if k % m == 0:
@@ -488,14 +510,43 @@ class Num:
                         return True
         return False
 
+    def _rem_form(self, q):
+        g, c = SYMTAB.syms[q].data
+        return g.sub(Form.sym(q, c))
+
     def _div_facts(self, q):
-        info = SYMTAB.syms[q]
-        g, c = info.data
-        r = g.sub(Form.sym(q, c))
-        rlo, rhi = self.rem_range(g, c)
+        r = self._rem_form(q)
+        rlo, rhi = self.rem_bounds(q)
         return [r.addc(-rhi), r.neg().addc(rlo)]
 
-    def propagate(self, seeds=None, budget=60):
+    def _set_remb(self, q, lo, hi):
+        olo, ohi = self.rem_bounds(q)
+        nlo, nhi = max(olo, lo), min(ohi, hi)
+        if nlo > nhi:
+            raise Infeasible()
+        if (nlo, nhi) != (olo, ohi):
+            self.remb[q] = (nlo, nhi)
+            return True
+        return False
+
+    def refresh_div(self, q):
+        """re-derive the remainder bounds of q from the sign of its dividend and from quotients taken of that
+        very remainder; returns True if they changed"""
+        g, c = SYMTAB.syms[q].data
+        lo, hi = self.sign_rem(g, c)
+        ch = self._set_remb(q, lo, hi)
+        for q2, (pq, k) in self.parent.items():
+            if pq != q:
+                continue
+            g2, c2 = SYMTAB.syms[q2].data
+            r2lo, r2hi = self.rem_bounds(q2)
+            qlo, qhi = self.slo(q2), self.shi(q2)
+            # remainder(q) + k = c2*q2 + remainder(q2)
+            if self._set_remb(q, c2 * qlo + r2lo - k, c2 * qhi + r2hi - k):
+                ch = True
+        return ch
+
+    def propagate(self, seeds=None, budget=80):
         """bound propagation from the seed symbols over explicit facts and the definitional facts of the
         Div symbols created on this path; bounded work"""
         if seeds is None:
@@ -515,13 +566,23 @@ class Num:
             cands = []
             if s in self.divs:
                 cands.append(s)
+                par = self.parent.get(s)
+                if par is not None:
+                    cands.append(par[0])
             for q in SYMTAB.users.get(s, ()):
                 if q in self.divs:
                     cands.append(q)
             for q in cands:
+                work += 1
+                if self.refresh_div(q):
+                    ch.add(q)
+                    par = self.parent.get(q)
+                    if par is not None:
+                        ch.add(par[0])
                 for F in self._div_facts(q):
                     work += 1
                     self._tighten(F, ch)
+            ch.discard(s)
             queue |= ch
 
     def note_div(self, q):
@@ -529,8 +590,35 @@ class Num:
         if q in self.divs:
             return
         self.divs.add(q)
+        g, c = SYMTAB.syms[q].data
+        # is the dividend the remainder of another quotient of this path (plus a constant)?
+        for s0, k0 in g.terms:
+            if SYMTAB.syms[s0].kind == 'div' and s0 in self.divs and s0 != q:
+                r = self._rem_form(s0)
+                if g.terms == r.terms:
+                    self.parent[q] = (s0, g.c - r.c)
+                    break
+        self.remb[q] = self.sign_rem(g, c)
+        ch = set()
         for F in self._div_facts(q):
-            self._tighten(F)
+            self._tighten(F, ch)
+        if ch:
+            self.propagate(ch)
+
+    def _fact_about_remainder(self, F: Form):
+        """an explicit fact that is exactly a bound on a remainder form updates the stored remainder bounds"""
+        hit = None
+        for q in self.divs:
+            r = self._rem_form(q)
+            if len(r.terms) != len(F.terms):
+                continue
+            if F.terms == r.terms:            # r - r.c + F.c <= 0
+                if self._set_remb(q, -INF, r.c - F.c):
+                    hit = q
+            elif F.terms == tuple((s, -k) for s, k in r.terms):   # -(r - r.c) + F.c <= 0
+                if self._set_remb(q, F.c + r.c, INF):
+                    hit = q
+        return hit
 
     def add_fact(self, F: Form):
         """assume F <= 0"""
@@ -556,12 +644,26 @@ class Num:
         if F not in self.facts:
             self.facts.append(F)
         ch = set()
+        if self.divs:
+            hit = self._fact_about_remainder(F)
+            if hit is not None:
+                ch.add(hit)
+                par = self.parent.get(hit)
+                if par is not None:
+                    ch.add(par[0])
         self._tighten(F, ch)
         if ch:
             self.propagate(ch)
 
     def note_equality(self, F: Form):
         """F == 0: a symbol with coefficient +-1 is congruent to the rest modulo the gcd of the rest"""
+        mods = {abs(k) for _, k in F.terms if abs(k) > 1}
+        for m in mods:
+            A = Form(0, tuple((s, k) for s, k in F.terms if k % m != 0))
+            if A.terms and len(A.terms) < len(F.terms):
+                ent = (A, m, (-F.c) % m)
+                if ent not in self.congf and len(self.congf) < 32:
+                    self.congf.append(ent)
         for s, k in F.terms:
             if abs(k) != 1:
                 continue
